@@ -142,8 +142,10 @@ def check(P: Project, R: Report) -> None:
                     ok = f.name in SHUTDOWN or (f is rt and bool(n.args) and key_is_routed_id(n.args[0]))
                     why = "the stream is looked up under a key that is not the routed message's id: a response could reach another request's stream"
                 elif m_ in ("pop",):
-                    ok = f.name in SHUTDOWN or (f is rt and bool(n.args) and key_is_routed_id(n.args[0]))
-                    why = "an entry is removed under a key that is not the routed message's id"
+                    # a public deregistration call removes the entry of the id it is given: the caller's own request
+                    own_key = (not f.name.startswith("_")) and bool(n.args) and isinstance(n.args[0], ast.Name) and n.args[0].id in f.positional_params()
+                    ok = f.name in SHUTDOWN or (f is rt and bool(n.args) and key_is_routed_id(n.args[0])) or own_key
+                    why = "an entry is removed under a key that is neither the routed message's id nor the id handed to a public deregistration call"
                 elif m_ in ("clear", "popitem", "update", "setdefault"):
                     ok = f.name in SHUTDOWN
                     why = f"`.{m_}()` on the routing table outside the shutdown path"
